@@ -70,6 +70,7 @@ def registry():
         'blocks': enc_blocks('old(out)', 'consumed()'),
         'chain': 'all(t < bl() ==> iv[t] == (old(cbcState.iv[t]) if consumed() == 0 else old(out)[consumed() - bl() + t]) for t in range(16))'})
     R.fn('CBC_encrypt', regions=SHAPE, configs=cfgs, cost=150, quick=QUICK, modifies=['out', 'cbcState.iv'], ensures=enc, lemmas=LEM,
+         strategy={'loop_inv_preserved.loop0.blocks': 'noematch'},
          loops={0: dict(invariants=inv, decreases='data_len', split={'blocks': ('b', 'consumed() - bl()', 'b + bl() <= consumed() - bl()')}, lemmas={
              'input_block': INPUT_BLOCK,
              'new_block': 'all(old(out)[consumed() - bl() + t] == (ekx(atold(old(in) + consumed() - bl()), atold(cbcState.iv), bl(), t) if consumed() == bl() else '
@@ -88,6 +89,7 @@ def registry():
         'blocks': dec_blocks('old(out)', 'consumed()'),
         'chain': 'all(t < bl() ==> iv[t] == (old(cbcState.iv[t]) if consumed() == 0 else oldmem(old(in), consumed() - bl() + t)) for t in range(16))'})
     R.fn('CBC_decrypt', regions=SHAPE, configs=cfgs, cost=110, quick=QUICK, modifies=['out', 'cbcState.iv'], ensures=dec, lemmas=LEM,
+         strategy={'loop_inv_preserved.loop0.blocks': 'default'},
          loops={0: dict(invariants=inv, decreases='data_len', split={'blocks': ('b', 'consumed() - bl()', 'b + bl() <= consumed() - bl()')}, lemmas={
              'input_block': INPUT_BLOCK,
              'new_block': 'all(old(out)[consumed() - bl() + t] == dk(atold(old(in) + consumed() - bl()), bl(), t) ^ '
